@@ -99,7 +99,7 @@ impl Property for C10 {
     fn cases(tier: Tier) -> u32 {
         match tier {
             Tier::Quick => 480,
-            Tier::Thorough => 6000,
+            Tier::Thorough => 50000,
         }
     }
 
@@ -107,7 +107,7 @@ impl Property for C10 {
         (
             comp_strategy(),
             small_content_seq_strategy(),
-            prop::collection::vec((comp_strategy(), small_content_seq_strategy()).prop_map(|(comp, contents)| ExtraPack { comp, contents }), 0..=2),
+            prop::collection::vec((comp_strategy(), small_content_seq_strategy(), prop_oneof![3 => Just(0u8), 1 => 1u8..5]).prop_map(|(comp, contents, id_class)| ExtraPack { comp, contents, id_class }), 0..=2),
             prop::bool::weighted(0.2),
             dir_strategy(SizeClass::Small, SortMode::Sometimes, true, true),
             prop_oneof![Just(PrefixKind::Random), Just(PrefixKind::Text), Just(PrefixKind::Elf), Just(PrefixKind::JbkLookalike)],
@@ -119,7 +119,7 @@ impl Property for C10 {
     }
 
     fn required_classes(_tier: Tier) -> Vec<&'static str> {
-        vec!["form:onefile", "form:twofiles", "form:noconcat", "form:concat", "form:concat-of-concats", "form:prefix", "form:identity-first", "extra-packs:2", "prefix:JbkLookalike", "prefix:Elf"]
+        vec!["form:onefile", "form:twofiles", "form:noconcat", "form:concat", "form:concat-of-concats", "form:prefix", "form:prefix+concat", "form:identity-first", "extra-packs:2", "prefix:JbkLookalike", "prefix:Elf"]
     }
 
     fn case_timeout_s(_tier: Tier) -> u64 {
@@ -169,6 +169,24 @@ impl Property for C10 {
             }
             evals += open_and_verify(&out, model, &format!("concat#{perm:?}"))?;
             info.class("form:concat");
+            // the bytes concat wrote follow the layout (declared sizes, locators, tail) ...
+            if pi % 4 == 0 {
+                let odir = ctx.subdir("c10-concat-one");
+                std::fs::copy(&out, odir.join("all.jbk")).unwrap();
+                if let Err(mut f) = crate::indepcheck::verify_indep_container_opts(&odir, "all.jbk", model, true, false) {
+                    f.sig = format!("concat:{}", f.sig);
+                    f.msg = format!("concat {perm:?}: {}", f.msg);
+                    return Err(f);
+                }
+                // ... and the output can itself be embedded at the end of another file
+                let mut data = prefix_bytes(&case.prefix_kind, case.prefix_len as usize, case.seed ^ pi as u32);
+                data.extend(std::fs::read(&out).unwrap());
+                let pout = odir.join("prefixed-concat.bin");
+                std::fs::write(&pout, &data).unwrap();
+                std::fs::remove_file(odir.join("all.jbk")).unwrap();
+                evals += open_and_verify(&pout, model, "prefix+concat")?;
+                info.class("form:prefix+concat");
+            }
             let _ = std::fs::remove_file(&out);
         }
         // 3. concat of two concats
